@@ -228,6 +228,30 @@ CLAIMED["C07"] = (
     "Events are root-type records or falsy Python values; the consumer pulls sequentially.",
     "DESIGN.md 3/C07",
 )
+CLAIMED["C04"] = (
+    "schedule exploration of generated @defer/@stream requests (deterministic scheduler, async-iterator "
+    "sources, consumer pulls, early execution on/off) with a payload assembler; oracle = reference executor on "
+    "the directive-free operation: equality, or a refinement relation when errors propagate",
+    "Applying the subsequent payloads to the initial payload as the format prescribes yields the reference "
+    "response whenever it is error-free or error propagation is disabled (then also the same error paths); "
+    "when errors propagate the assembled data refines the non-propagating reference: equal leaves, nulls "
+    "accounted by errors, withheld keys and stream tails covered by an id completed with errors; a plain "
+    "result equals the reference.",
+    "Key order is not compared; the reference executor R5 is my reading of the specification; open known "
+    "finding F20 is excluded by predicate.",
+    "DESIGN.md 3/C04",
+)
+CLAIMED["C05"] = (
+    "trace-invariant monitor (state machine over the formatted payload sequence) on every explored run of the "
+    "incremental request domain under the deterministic scheduler",
+    "On every payload: ids are announced once before any data and never reused, incremental entries target a "
+    "pending id and an existing object or list of the data assembled so far, every announced id is completed "
+    "exactly once, a necessarily nested fragment is not announced while its announced enclosing fragment stays "
+    "pending, hasNext is true except on the last payload and nothing follows it, and the stream terminates.",
+    "Static nesting is taken from the generated document (every-route enclosure); open known findings F11 and "
+    "F20 are excluded by predicate; the bounded-exhaustive direct drive of WorkQueue is not built yet.",
+    "DESIGN.md 3/C05",
+)
 PENDING_REASON = (
     "check under construction in this session (DESIGN.md section 3 has its design); it is not claimed "
     "until it has run quietly on the unchanged tree at several seeds"
